@@ -62,6 +62,14 @@ class C09(Check):
                     pl = bytes([k]) * min(65535, 4 * full // k + 64)
                     meta = dict(seed=sname, idx=idx, content=m["content"], plan_len=len(pl), mode=1, impl_only=True)
                     cases.append(("entry_sched %s %d %d %s %s %s 1" % (hexs(data), idx, 1 if pw else 0, hexs(pw or b""), hexs(pl), hexs(bytes([r.choice([1, 7, 64])]))), meta))
+        # ---- the streaming reader over short-reading sources, entries read completely, partly or not at all before moving on
+        # (the unread rest is skipped by the reader itself): same sequence as the seekable reader reports
+        sdata = genzip.build([genzip.Entry(b"s0", b"stream zero " * 40), genzip.Entry(b"s1", b"one " * 300, method=8), genzip.Entry(b"s2", b""),
+                              genzip.Entry(b"s3", bytes(range(256)) * 3, method=12), genzip.Entry(b"s4", b"tail")], comment=b"chunky")[0]
+        for pat in (b"", b"\x00", b"\x03", b"\xff\x00", b"\x00\xff\x05"):
+            for k in (1, 7, 64, 100):
+                pl = (bytes([k]) * (4 * len(sdata) // k + 64))[:65535]
+                cases.append(("stream_vs_seek %s %s %s" % (hexs(sdata), hexs(pat), hexs(pl)), dict(mode=3, n=5, impl_only=True, content=None, plan_len=len(pl))))
         # ---- writer side: the archive is byte-identical however the sink accepts short writes
         import wprog
         from wprog import Opts
@@ -114,6 +122,8 @@ class C09(Check):
             return "implementation did not return: %s" % (out or "")[:120]
         if "EOF-NOT-STICKY" in out or "LIVELOCK" in out or "BAD-COUNT" in out:
             return "read contract broken: " + out[:60]
+        if meta["mode"] == 3:
+            return None if out.startswith("[SAME %d]" % meta["n"]) else "streamed sequence over a short-reading source differs from the seekable reader's: " + out[:200]
         if meta["mode"] == 1:
             if not out.startswith("[SAME "):
                 return "fragmented run differs from the unfragmented one: " + out[:200]
@@ -127,6 +137,6 @@ class C09(Check):
 
     def nontrivial(self, line, meta, out):
         m = re.search(r"\[([0-9 ]*)\]\]\]$", out or "")
-        return meta["mode"] in (1, 2) or (bool(m) and len(m.group(1).split()) > 1)
+        return meta["mode"] in (1, 2, 3) or (bool(m) and len(m.group(1).split()) > 1)
 
 CHECK = C09
